@@ -146,13 +146,50 @@ impl RankTable {
     }
 }
 
+/// The same enumeration as `windows` for giant inputs: every window is still read base by base from the
+/// text (no rolling state), but without building a list or allocating.
+pub fn for_each_window(seq: &[u8], k: usize, mut f: impl FnMut(usize, u64, u64)) {
+    if k == 0 || seq.len() < k {
+        return;
+    }
+    let mut run = 0usize;
+    for i in 0..seq.len() {
+        if is_base(seq[i]) {
+            run += 1;
+        } else {
+            run = 0;
+        }
+        if run >= k {
+            let p = i + 1 - k;
+            let (mut fw, mut rv) = (0u64, 0u64);
+            for j in 0..k {
+                fw = fw * 4 + base(seq[p + j]).unwrap() as u64;
+                rv = rv * 4 + (3 - base(seq[p + k - 1 - j]).unwrap()) as u64;
+            }
+            f(p, fw, rv);
+        }
+    }
+}
+
 /// Per-column counts of canonical k-mers of a record and the number of valid windows.
 pub fn oligo_counts(seq: &[u8], rt: &RankTable) -> (Vec<u64>, u64) {
     let mut v = vec![0u64; rt.len()];
     let mut total = 0;
-    for c in canonical_stream(seq, rt.k) {
-        v[rt.rank(c)] += 1;
-        total += 1;
+    if seq.len() <= 50_000 {
+        for c in canonical_stream(seq, rt.k) {
+            v[rt.rank(c)] += 1;
+            total += 1;
+        }
+    } else {
+        // the two enumerations must agree on a prefix (self-check of the fast path)
+        let head = &seq[..4_000];
+        let mut chk = Vec::new();
+        for_each_window(head, rt.k, |p, f, r| chk.push((p, f, r)));
+        assert_eq!(chk, windows(head, rt.k), "model self-check: window enumerations disagree");
+        for_each_window(seq, rt.k, |_, f, r| {
+            v[rt.rank(f.min(r))] += 1;
+            total += 1;
+        });
     }
     (v, total)
 }
